@@ -64,6 +64,8 @@ def run_case(case) -> Result:
         classes.add("v3")
     if proto["v"] == "1":
         classes.add("v1")
+    if proto.get("via"):
+        classes.add("reconfigured_from_" + proto["via"]["v"])
     state = {}
 
     def hook(agent, req):
@@ -269,6 +271,11 @@ def run_case(case) -> Result:
 def cases(draw, v3_weight=1):
     w = draw(vs.walk_world())
     proto = draw(vs.proto(v3_weight=v3_weight, v1=True))
+    if draw(st.integers(0, 9)) == 0:
+        # history: the client was created for another protocol / community and
+        # re-configured (Client.configure) before the operation
+        proto = dict(proto, via=draw(st.sampled_from([vworld.V1_PROTO, vworld.V2C_PROTO, vworld.V3_PROTOS[0],
+                                                      {"v": "2c", "community": "other"}, {"v": "1", "community": "other"}])))
     if proto["v"] == "1":
         # v1 agents hold no Counter64 (RFC 3584)
         w["db"] = [[o, (vber.T_GAUGE if t == vber.T_COUNTER64 else t),
@@ -297,7 +304,7 @@ def cases(draw, v3_weight=1):
     elif op in ("multiget", "multigetnext"):
         case["oids"] = draw(st.lists(oid, min_size=1, max_size=12))
     elif op in ("set", "multiset"):
-        n = 1 if op == "set" else draw(st.integers(1, 6))
+        n = 1 if op == "set" else draw(st.integers(1, min(6, len(set(pool)))))
         targets = draw(st.lists(oid, min_size=n, max_size=n, unique_by=tuple))
         tags = vs.V1_TAGS if proto["v"] == "1" else None
         case["set"] = [[t] + draw(vs.value(tags=tags, allow_null=False)) for t in targets]
